@@ -420,6 +420,55 @@ def shard_graph(idx, nshards, known):
     return part.to_dict()
 
 
+def shard_spellings(idx, nshards, known):
+    """Every base title x namespace, stored once (plainly, or as the target
+    of a redirect page), then read through EVERY spelling the statement
+    lists - the random histories sample one spelling per read."""
+    env.setup()
+    part = Part()
+    buckets = {}
+    n = 0
+    nsm = None
+    for base in BASES:
+        for ns in NSIDS:
+            for via_redirect in (False, True):
+                n += 1
+                if n % nshards != idx:
+                    continue
+                hx0 = Harness()
+                try:
+                    sp = spellings(hx0.nsm, base, ns)
+                finally:
+                    hx0.close()
+                seq = [["add", base, ns, True, "body " + base, "wikitext"]]
+                read_base = base
+                if via_redirect:
+                    other = [b for b in BASES if b != base][0]
+                    seq.append(["redirect", other, ns, base, True])
+                seq.append(["commit"])
+                for lab, s_ in sp:
+                    seq.append(["read", read_base, ns, lab, s_, False])
+                if ns != 0:
+                    seq.append(["read", read_base, ns, "canonical", None, True])
+                seq.append(["fresh-scan"])
+                f, hx = run_sequence(seq)
+                part.case(h(["spellings", base, ns, via_redirect]), True,
+                          classes=["all-spellings", "spellings:%d" % len(sp)],
+                          sample=seq[:3])
+                if f is not None:
+                    if any(sig_matches(k["signature"], f.signature)
+                           for k in known):
+                        part.excluded["known"] += 1
+                        continue
+                    key = h(f.signature)
+                    if key not in buckets or len(f.replay["ops"]) < len(
+                            buckets[key].replay["ops"]):
+                        buckets[key] = f
+    for f in buckets.values():
+        part.violation(f.signature, f.what, f.replay)
+    return part.to_dict()
+
+
 def _dispatch(fn, args):
     return fn(*args)
 
@@ -437,6 +486,7 @@ def run(run):
         jobs += [(shard_stateful, (i, run.seed, 1500, 40, run.known))
                  for i in range(16)]
     jobs += [(shard_graph, (i, procs, run.known)) for i in range(procs)]
+    jobs += [(shard_spellings, (i, procs, run.known)) for i in range(procs)]
     for d in par.map_shards(_dispatch, jobs, procs):
         run.merge(d)
     run.exhaustive = True
@@ -449,7 +499,8 @@ def run(run):
         "context scan), sequences without any read skipped; every redirect "
         "graph on three template titles (two differing in first-letter case; "
         "each absent / content / redirect to any of the three, with or without "
-        "stored redirect text), every title read through two spellings; plus a Hypothesis "
+        "stored redirect text), every title read through two spellings; every base "
+        "title x namespace read through every one of its spellings; plus a Hypothesis "
         "RuleBasedStateMachine (7 base titles x 5 namespaces, up to 16 read "
         "spellings per title, bodies with inclusion control, four content "
         "models, redirects, commit, scan through a new context) to length "
